@@ -88,6 +88,10 @@ def cases(tier):
     ax = A.AXES
     for ia, a in enumerate(ax):
         out.append({"cls": "Circle", "axes": [a], "centre": 1 + ia % 3})
+        # centres at the origin, on a coordinate plane and on an axis (a repr that drops a "default" centre must not
+        # drop these)
+        for k in (0, 4, 5):
+            out.append({"cls": ("Sphere", "Ellipsoid", "Circle", "Ellipse")[(ia + k) % 4], "axes": {"Sphere": [a], "Circle": [a], "Ellipse": [a, 2.0], "Ellipsoid": [a, 0.3, 2.0]}[("Sphere", "Ellipsoid", "Circle", "Ellipse")[(ia + k) % 4]], "centre": k})
         out.append({"cls": "Sphere", "axes": [a], "centre": 1 + ia % 3})
         for ib, b in enumerate(ax):
             if (ia + ib) % (3 if q else 1) == 0:
